@@ -226,6 +226,8 @@ def meta_of(v, root_index) -> dict:
     ttw = getattr(v, "gengy_types_this_way", {}) or {}
     idx = []
     for cls, objs in ttw.items():
+        if not isinstance(cls, type) or cls.__module__ == "builtins" or cls.__name__ == "GengyList":
+            continue            # the property speaks of the node types below; base values / list wrappers are skipped
         paths = []
         for o in objs:
             paths.append(root_index.get(id(o), "outside"))
@@ -270,7 +272,7 @@ def term_of(v: Any, meta=False, _idx=None, _depth=0) -> dict:
         return {"k": "val", "ty": "str", "iv": len(v), "cs": cs_of(v), "kids": [], "m": NO_META}
     if isinstance(v, list):
         m = meta_of(v, _idx) if meta else NO_META
-        return {"k": "list", "ty": type(v).__name__, "iv": 0, "cs": [],
+        return {"k": "list", "ty": "list", "iv": 0, "cs": [],
                 "kids": [term_of(c, meta, _idx, _depth + 1) for c in v], "m": m}
     if isinstance(v, tuple):
         return {"k": "tuple", "ty": "tuple", "iv": 0, "cs": [],
